@@ -1,5 +1,5 @@
 # replay of a bounded stand-in violation (C11): re-run native/c11_compilers.py
 import sys
-print("gaussian_merge n=4 gates=[('BSgate', (1, 2)), ('BSgate', (1, 0)), ('S2gate', (1, 2)), ('Vgate', (2,)), ('Rgate', (2,)), ('Rgate', (2,)), ('S2gate', (1, 2)), ('CKgate', (0, 3)), ('Rgate', (3,)), ('MZgate', (0, 2)), ('BSgate', (3, 0)), ('Vgate', (2,)), ('Sgate', (1,)), ('Dgate', (3,)), ('Sgate', (0,))]: with the opaque gates interpreted as fixed unitaries the compiled program [('GaussianTransform', [0, 1, 2]), ('CKgate', [0, 3]), ('Vgate', [2]), ('Vgate', [2]), ('GaussianTransform', [0, 1, 2, 3]), ('Dgate', [3]), ('MeasureFock', [0, 1, 2, 3])] computes something else (max difference 1.87)")
+print("passive n=6 modes=[5, 3, 4, 0, 1, 2] gates=[('Interferometer', (4, 5)), ('MZgate', (0, 4)), ('MZgate', (2, 3)), ('Rgate', (3,)), ('BSgate', (1, 5)), ('Rgate', (4,)), ('Rgate', (4,)), ('BSgate', (4, 0)), ('BSgate', (2, 4)), ('BSgate', (0, 4)), ('BSgate', (0, 3)), ('PassiveChannel', (5,)), ('Rgate', (1,)), ('BSgate', (1, 0)), ('Rgate', (0,)), ('Rgate', (5,))]: compiled program leaves a different Gaussian state (max difference 0.317)")
 print('REPLAY-VIOLATION')
 sys.exit(1)
